@@ -107,6 +107,8 @@ func addStubIntrinsics(t map[string]Intrinsic) {
 			switch x := v.V.(type) {
 			case string:
 				native = x
+			case float64:
+				native = x
 			case *Term:
 				if !x.IsConst() {
 					m.unsupported("json.Encode of symbolic scalar")
@@ -194,6 +196,14 @@ func addStubIntrinsics(t map[string]Intrinsic) {
 				return m.newErrorString(err.Error())
 			}
 			*target = s
+			return IfaceV{}
+		}
+		if b, isB := under(pt.Elem()).(*types.Basic); isB && b.Kind() == types.Int {
+			var n int
+			if err := json.Unmarshal(data, &n); err != nil {
+				return m.newErrorString(err.Error()) // (the text of a type or range error echoes the offending literal)
+			}
+			*target = m.tf.Const(64, uint64(n))
 			return IfaceV{}
 		}
 		m.unsupported("json.Unmarshal into %v", pt.Elem())
